@@ -260,7 +260,7 @@ theorem showOwner_eq (o : Owner) : showOwner o = ownerKind o ++ ':' :: ownerName
 theorem showAce_eq_join (a : Ace) :
     showAce a = join ':' [showSet flagTable a.flags, ownerKind a.owner, ownerName a.owner,
       accessStr a.allow, showSet permTable a.perms] := by
-  simp [showAce, join, showOwner_eq, accessStr, List.append_assoc]
+  simp only [showAce, join, showOwner_eq, accessStr, List.append_assoc, List.cons_append]
 
 theorem ownerKind_noColon (o : Owner) : ':' ∉ ownerKind o := by
   cases o <;> simp [ownerKind]
@@ -283,8 +283,7 @@ theorem parseOwner_show (o : Owner) (h : o.WF) : parseOwner (ownerKind o) (owner
   | user n => simp [Owner.WF] at h; simp [parseOwner, ownerKind, ownerName, h.1]
   | group n =>
     simp [Owner.WF] at h
-    have : ¬ (['g'] = "u".toList ∨ ['g'] = "user".toList) := by decide
-    simp [parseOwner, ownerKind, ownerName, h.1, this]
+    simp [parseOwner, ownerKind, ownerName, h.1]
   | owner => rfl
   | ownerGroup => rfl
   | mask => rfl
@@ -329,14 +328,14 @@ theorem parseAce_ok {s : Str} {a : Ace} (h : parseAce s = .ok a) :
     ∃ f k n al pm, splitOn ':' s = [f, k, n, al, pm] ∧ parseOwner k n = .ok a.owner ∧
       a.flags = parseSet flagTable f ∧ a.perms = parseSet permTable pm := by
   unfold parseAce at h
-  split at h <;> try (simp at h; done)
+  split at h <;> try contradiction
   rename_i f k n rest hs
-  split at h <;> try (simp at h; done)
+  split at h <;> try contradiction
   rename_i o ho
-  split at h <;> try (simp at h; done)
+  split at h <;> try contradiction
   rename_i al rest
-  split at h <;> try (simp at h; done)
-  split at h <;> try (simp at h; done)
+  split at h <;> try contradiction
+  split at h <;> try contradiction
   rename_i pm
   simp only [Except.ok.injEq] at h
   subst h
@@ -381,7 +380,7 @@ theorem filter_sep_nil (sep : Char) (x : Str) (h : sep ∉ x) : x.filter (· = s
   | cons c cs ih =>
     have hc : c ≠ sep := fun e => h (by simp [e])
     have hcs : sep ∉ cs := fun e => h (by simp [e])
-    simp [List.filter_cons, hc, ih hcs]
+    simp [hc, ih hcs]
 
 theorem takeWhile_sep (sep : Char) (x r : Str) (h : sep ∉ x) :
     (x ++ sep :: r).takeWhile (· ≠ sep) = x := by
@@ -408,7 +407,7 @@ theorem dropWhile_sep (sep : Char) (x r : Str) (h : sep ∉ x) :
 theorem showAce_colons (a : Ace) (h : a.owner.WF) :
     ((showAce a).filter (· = ':')).length = 4 := by
   rw [showAce_eq_join]
-  simp [join, List.filter_append, List.filter_cons,
+  simp [join, List.filter_append,
     filter_sep_nil ':' _ (showSet_noColon flagTable_ok a.flags),
     filter_sep_nil ':' _ (showSet_noColon permTable_ok a.perms),
     filter_sep_nil ':' _ (ownerKind_noColon a.owner),
@@ -432,5 +431,81 @@ theorem parseAceP_showAceP (p : Option Str) (a : Ace) (h : a.WF)
   simp only [takeWhile_sep ':' _ _ hq, dropWhile_sep ':' _ _ hq, List.drop_succ_cons, List.drop_zero,
     parseAce_showAce a h]
   rfl
+
+-- ---------------------------------------------------------------- xattr values: hex
+
+theorem parseU8Hex_pair : ∀ n, n < 256 →
+    parseU8Hex [hexDigitChar (n / 16), hexDigitChar (n % 16)] = some (UInt8.ofNat n) := by
+  decide +kernel
+
+theorem parseU8Hex_byte (b : UInt8) :
+    parseU8Hex [hexDigitChar (b.toNat / 16), hexDigitChar (b.toNat % 16)] = some b := by
+  have := parseU8Hex_pair b.toNat b.toNat_lt
+  rwa [UInt8.ofNat_toNat] at this
+
+theorem mapM_chunks_hex (bs : Bytes) :
+    (charChunks2 (bs.flatMap fun b => [hexDigitChar (b.toNat / 16), hexDigitChar (b.toNat % 16)])).mapM
+      parseU8Hex = some bs := by
+  induction bs with
+  | nil => rfl
+  | cons b bs ih =>
+    simp only [List.flatMap_cons, List.cons_append, List.nil_append, charChunks2, List.mapM_cons,
+      parseU8Hex_byte, ih]
+    rfl
+
+theorem parseValue_showHex (bs : Bytes) : parseValue (showHex bs) = some bs := by
+  unfold showHex
+  rw [parseValue.eq_1]
+  exact mapM_chunks_hex bs
+
+-- ---------------------------------------------------------------- xattr values: base64
+
+theorem b64Val_b64Char : ∀ n, n < 64 → b64Val? (b64Char n) = some n := by decide +kernel
+theorem b64Char_ne_pad : ∀ n, n < 64 → b64Char n ≠ '=' := by decide +kernel
+
+theorem u8_ofNat_eq (a : UInt8) (n : Nat) (h : n = a.toNat) : UInt8.ofNat n = a := by
+  subst h; exact UInt8.ofNat_toNat
+
+theorem b64Decode_encode (bs : Bytes) : b64Decode (b64Encode bs) = some bs := by
+  induction bs using b64Encode.induct with
+  | case1 => rfl
+  | case2 a =>
+    have ha := a.toNat_lt
+    rw [b64Encode, b64Decode.eq_2, b64Val_b64Char _ (by omega), b64Val_b64Char _ (by omega)]
+    simp only []
+    rw [if_pos (by omega), u8_ofNat_eq a _ (by omega)]
+  | case3 a b =>
+    have ha := a.toNat_lt
+    have hb := b.toNat_lt
+    rw [b64Encode, b64Decode.eq_3 _ _ _ (b64Char_ne_pad _ (by omega)),
+      b64Val_b64Char _ (by omega), b64Val_b64Char _ (by omega), b64Val_b64Char _ (by omega)]
+    simp only []
+    rw [if_pos (by omega), u8_ofNat_eq a _ (by omega), u8_ofNat_eq b _ (by omega)]
+  | case4 a b c r ih =>
+    have ha := a.toNat_lt
+    have hb := b.toNat_lt
+    have hc := c.toNat_lt
+    have hd : b64Char (c.toNat % 64) ≠ '=' := b64Char_ne_pad _ (by omega)
+    rw [b64Encode, b64Decode.eq_4 _ _ _ _ _ (fun _ h _ => hd h) (fun h _ => hd h),
+      b64Val_b64Char _ (by omega), b64Val_b64Char _ (by omega), b64Val_b64Char _ (by omega),
+      b64Val_b64Char _ (by omega), ih]
+    simp only []
+    rw [u8_ofNat_eq a _ (by omega), u8_ofNat_eq b _ (by omega), u8_ofNat_eq c _ (by omega)]
+
+theorem parseValue_showB64 (bs : Bytes) : parseValue (showB64 bs) = some bs := by
+  unfold showB64
+  rw [parseValue.eq_2]
+  exact b64Decode_encode bs
+
+-- ---------------------------------------------------------------- deciding concrete witnesses
+
+/-- core has no `DecidableEq (Except ε α)`; needed to `decide` concrete parse results -/
+instance instDecidableEqExcept {ε α : Type} [DecidableEq ε] [DecidableEq α] :
+    DecidableEq (Except ε α)
+  | .ok a, .ok b => if h : a = b then isTrue (by rw [h]) else isFalse fun e => h (by injection e)
+  | .error a, .error b =>
+    if h : a = b then isTrue (by rw [h]) else isFalse fun e => h (by injection e)
+  | .ok _, .error _ => isFalse nofun
+  | .error _, .ok _ => isFalse nofun
 
 end Pna.Cli.Text
